@@ -484,6 +484,12 @@ def _mirsym():
         bounds="columns of 0 and 2 rows (quick) / 0,1,3,9 (thorough); Vec<i64>, Vec<u8>, Vec<OrderedFloat<f64>>, NullableVec<i64>, usize (quick) + Vec<u16|u32>, NullableVec<u8|f64> (thorough); values and null-map bytes symbolic; dyn Data get_type / cast_ref_* / len through the tagged-sequence model, get_raw through the real impls",
         spec=sdt_.RowColumnViewSpec(), stubs=["dyn Data dispatch -> tagged sequences (get_type, cast_ref_*, len); get_raw -> real impl of the receiver's concrete type"])
 
+    add("C13.c/new_column_wiring", "C13", "mirsym", Q,
+        "catalogue wiring in InnerLocustDB::ingest_efficient: every column name of a batch's table buffer - including columns without values in this batch - reaches Table::new_column_names, whose result becomes the rows written to _meta_columns_<table> (data-flow slice from the table_buffer.columns() call to the new_column_names call; counterexamples confirmed through the public API)",
+        ["scheduler::inner_locustdb::InnerLocustDB::ingest_efficient (slice)", "locustdb_serialization::event_buffer::TableBuffer::columns", "the map closure of the call site"],
+        bounds="table buffers of 0-3 columns over {I64, Dense, Sparse, String, Mixed, Empty}; everything else in ingest_efficient (locks, table creation, WAL, Table state) havoc'd; API replay mandatory for counterexamples",
+        spec=sib.NewColumnWiringSpec(), stubs=["Table::new_column_names -> end of slice (the iterator it receives is drained and recorded)", "HashMap<String,V> -> association list", "all other callees of the slice -> havoc"])
+
 
 _mirsym()
 
